@@ -32,8 +32,8 @@ def run(tier="quick", only_key=None):
         Hs = H_of(parity)
         for D in (1, 2, 3):
             fshape = (N,) * (D - 1) + (Hs,)
-            S_rec = it.call(bsa, [D, N], {"mode": "reconstruction"}).data[0]
-            S_norm = it.call(bsa, [D, N], {"mode": "norm_compensation"}).data[0]
+            S_rec = C.scaling(D, "reconstruction", parity)
+            S_norm = C.scaling(D, "norm_compensation", parity)
             kap = alg.sqrt(sum((k * k for k in C.kvec(D)), Poly()))
             b = Poly.atom(("k", 0, 1, "half"))  # the bin variable: the 1-D wavenumbers 0..N//2
             for Cn, power, binning in itertools.product((1, 2), (True, False), ("sum", "average")):
